@@ -707,6 +707,7 @@ func init() {
 		run: func(c *Ctx) {
 			c20WatcherEvents(c)
 			vrt.Enabled = true
+			c20EventLoop(c)
 			env := &c20Env{}
 			_, _, htq := env.get("htpasswd")
 			_, _, emq := env.get("emails")
@@ -762,6 +763,16 @@ func init() {
 					c.Violate(key, msg, 1, wc)
 				}
 				return "events " + strings.Join(wc.Events, ",") + ": " + msg
+			}
+			var lc c20LoopCase
+			if json.Unmarshal(raw, &lc) == nil && lc.Kind == "event-loop" {
+				vrt.Enabled = true
+				r := c20LoopExec(lc, explore.Replay(lc.Choices, nil))
+				key, msg := c20LoopJudge(lc, r)
+				if key != "" {
+					c.Violate(key, msg, 1, lc)
+				}
+				return fmt.Sprintf("order %s in force %v: %s", sched.DescribeOrder(r.out.Order), r.inForce, msg)
 			}
 			var rp c20Replay
 			if err := json.Unmarshal(raw, &rp); err != nil {
